@@ -84,7 +84,10 @@ Definition renames_onto (target : string) (o : fop) : bool :=
 Definition safe_op (target : string) (renamed : bool) (s : fsys) (o : fop) : bool :=
   match o with
   | FMkdir _ | FMeta _ | FClose _ => true
-  | FOpen _ p creat trunc => negb (String.eqb p target) || (negb creat && negb trunc)
+  (* another path may be opened for reading, or created/opened for writing only if it starts EMPTY
+     (O_TRUNC, or O_EXCL which lib/c19_fs.py reports as trunc): a leftover of an earlier, killed save
+     under the same name must not survive into what is renamed over the target *)
+  | FOpen _ p creat trunc => (negb (String.eqb p target) && (negb creat || trunc)) || (negb creat && negb trunc)
   | FWrite fd _ => match fd_path (fds s) fd with Some p => negb (String.eqb p target) | None => true end
   | FUnlink p => negb (String.eqb p target)
   | FRename src dst =>
